@@ -832,7 +832,11 @@ class J1939_22:
         # peer to peer
         # pdu_specific is destination Address
         pgn_value = pgn.value & 0x1FF00
-        dest_address = pgn.pdu_specific # may be Address.GLOBAL
+        if pgn.is_pdu2_format:
+            # broadcast: pdu_specific is a group extension, not an address
+            dest_address = ParameterGroupNumber.Address.GLOBAL
+        else:
+            dest_address = pgn.pdu_specific # may be Address.GLOBAL
 
         # iterate all CAs to check if we have to handle this destination address
         if dest_address != ParameterGroupNumber.Address.GLOBAL:
